@@ -1,10 +1,17 @@
-"""C08  Instruction encodings agree with the architecture reference  (RISC-V: RV32IM + Zicsr + C).
+"""C08  Instruction encodings agree with the architecture reference  (RISC-V: RV32IM + Zicsr + C; ARM: A32).
 
-For every instruction class of ppci's riscv and riscv:rvc ISA objects that has a syntax and an encoding,
+RISC-V: for every instruction class of ppci's riscv and riscv:rvc ISA objects that has a syntax and an encoding,
 the instruction is built with SYMBOLIC operands (register objects whose number is symbolic, symbolic
 immediates, symbolic branch distance through the real relocation class), the real encode() runs on them,
 and the emitted bytes are decoded by the manual-derived decoder ref/rv32.py.  Obligation: encode raised,
 or the bytes decode to the instruction the class's real syntax prints, with exactly the printed operands.
+
+ARM (harnesses arm.encode[...]): the same for every class of get_arch('arm').isa from
+ppci/arch/arm/arm_instructions.py (A32; not thumb, not the coprocessor classes mcr/mrc): ArmRegister objects with
+symbolic number 0..15, symbolic immediates, the shift suffix constructor chosen by a symbolic selector with a
+symbolic amount, register lists of N register objects with symbolic numbers, label operands through the real
+Imm24 / LdrImm12 / AdrImm12 relocation with a symbolic distance; decoder ref/arm32.py (ARM ARM DDI 0406C).  The
+condition suffix of the printed mnemonic (movls, subcc, bhs ...) must be the decoded condition field.
 """
 import os
 from symx.harness import Harness
@@ -16,26 +23,42 @@ from props import _rv, _arm
 PROPERTY = "C08"
 LEVEL = "model_checking"
 BOUNDS = {
-    "quick": {"registers": "every register number 0..31 (CSR: 0..4095), all operands symbolic at once",
-              "immediates": "[-2**33, 2**33]; obligation stated for the manual's documented operand range",
-              "branch/jump distance": "twice the documented reach, every even instruction address below 2**32",
-              "instruction classes": "every class of ppci.arch.riscv.instructions / rvc_instructions with syntax + tokens",
-              "pseudo-instructions": "li rd, imm: rd 0..31, imm -2**31 .. 2**32-1, machine state fully symbolic (x1..x31, pc, memory)"},
+    "quick": {"registers": "riscv: every register number 0..31 (CSR: 0..4095); arm: every register number 0..15 (incl. sp, lr, pc); "
+                           "all operands symbolic at once",
+              "immediates": "[-2**33, 2**33]; obligation stated for the manual's documented operand range (arm data-processing "
+                            "immediates: every 32-bit value, i.e. all 16 rotations of encode_imm32 and its rejection)",
+              "branch/jump distance": "twice the documented reach, every even (arm: word-aligned) instruction address below 2**32",
+              "instruction classes": "every class of ppci.arch.riscv.instructions / rvc_instructions and of "
+                                     "ppci.arch.arm.arm_instructions (as registered in the ISA objects) with syntax + tokens",
+              "pseudo-instructions": "li rd, imm: rd 0..31, imm -2**31 .. 2**32-1, machine state fully symbolic (x1..x31, pc, memory)",
+              "arm shift suffix": "NoShift / lsl / lsr / asr (all four constructors), amount [-64, 64]; obligation for the documented "
+                                  "amounts lsl 0..31, lsr/asr 1..32",
+              "arm register lists (push/pop)": "every list of at most 3 registers (3 register objects, symbolic numbers, may coincide)",
+              "arm condition codes": "the conditional classes that exist (movls, subcc, subcs, subne, b<cond>): fixed per class"},
 }
 BOUNDS["thorough"] = dict(BOUNDS["quick"])
 BOUNDS["thorough"]["immediates"] = BOUNDS["quick"]["immediates"].replace("2**33", "2**48")
 BOUNDS["thorough"]["branch/jump distance"] = BOUNDS["quick"]["branch/jump distance"].replace("twice", "16 times")
-OUTSIDE = ["arm, thumb, x86_64, msp430, avr, m68k, mips, or1k, xtensa, microblaze (no reference decoder available here)",
-           "F/D floating-point instruction classes (rvf/rvfx modules)",
-           "pseudo-instructions whose expansion needs relocations (La, Labelrel), data directives, and the rvc selection helpers "
+BOUNDS["thorough"]["arm register lists (push/pop)"] = "every non-empty register list (16 register objects with symbolic numbers) and every single register"
+OUTSIDE = ["thumb, x86_64, msp430, avr, m68k, mips, or1k, xtensa, microblaze (no reference decoder here)",
+           "F/D floating-point instruction classes (rvf/rvfx modules); arm VFP / NEON / coprocessor classes (mcr, mrc: listed as unclaimed in evidence)",
+           "pseudo-instructions whose expansion needs relocations (La, Labelrel; arm `ldr rt, =label`), data directives, and the rvc selection helpers "
            "Andv, Lwv, ... (not registered in the ISA object); li rd, imm IS covered (rendered sequence executed)",
-           "immediates outside the manual's documented range (whether encode() must reject them is C10)",
+           "immediates / shift amounts / label distances outside the manual's documented range (whether encode() must reject them is C10: "
+           "e.g. arm encode_imm32 of values >= 2**32, `lsr 0`, strh offsets > 255, b/bl distances >= 2**25)",
            "hi/lo style label operands (lui/auipc/addi/lw with a label): only the base encoding is compared, the relocated field is C10/C11",
+           "arm operand combinations the manual calls UNPREDICTABLE (pc as shift register or multiply operand, empty register list ...): "
+           "decoded like a disassembler does; whether encode() should refuse them is not judged",
            "the assembler's text path (string -> instruction object)"]
 ASSUMPTIONS = ["ref/rv32.py states the RISC-V Unprivileged ISA manual 20191213 correctly (self-tested: table is a function, "
                "76 repo test vectors, known toolchain encodings, shift-mask vs extract slicing proved equal for every word)",
+               "ref/arm32.py states the ARM ARM (DDI 0406C, A32 encodings) correctly (self-tested per run: table is a function, 72 vectors of the "
+               "repo's test_armasm.py, 52 known toolchain words, 60 hand-computed step results, integer vs z3 back ends on random states; "
+               "integer vs z3 field slicing proved equal for every word; if llvm-mc is installed, 4000 random words agree with LLVM's disassembler)",
                "the printed operand values are the operand attributes after construction (what Syntax.render reads)",
                "ppci prints c.slli/c.srli/c.srai/c.andi/c.addi as 'op rd, rs, imm': read as the manual's expansion 'op rd, rd, imm'",
+               "arm spellings: ppci's `mov rd, rm, lsl n` / `lsl rd, rn, rm` are the manual's MOV (shifted register) forms; `add rd, pc, imm` = ADR and "
+               "`ldr rt, [pc, imm]` = LDR (literal) are one instruction with two spellings; `push {r}` with one register is the STMDB sp! encoding",
                "any exception out of encode()/relocation.apply() = operand combination rejected"]
 SHIMS_USED = ["isinstance", "int", "range", "bytes", "bytearray", "struct", "bool"]
 JOB_TIMEOUT = {"quick": 150, "thorough": 600}
